@@ -330,6 +330,27 @@ func c16(ctx *Ctx) (*Outcome, error) {
 		_ = k
 		jobs = append(jobs, j)
 	}
+	// enumerated: a definition that holds a composition and is generated twice under two scopes (used by reference AND
+	// merged into another struct through allOf): the member types the second scope needs are declared with and without
+	// methods alike
+	for _, inner := range []string{
+		`"anyOf":[{"type":"object","properties":{"r":{"type":"number"}},"required":["r"]},{"type":"object","properties":{"w":{"type":"number"},"h":{"type":"number"}},"required":["w"]}]`,
+		`"anyOf":[{"$ref":"#/$defs/Circle"},{"type":"object","properties":{"w":{"type":"number"}},"required":["w"]}]`,
+		`"allOf":[{"type":"object","properties":{"r":{"type":"number","minimum":0}}},{"type":"object","properties":{"label":{"type":"string"}}}]`,
+		`"type":"array","items":{"anyOf":[{"type":"object","properties":{"r":{"type":"number"}},"required":["r"]},{"type":"object","properties":{"w":{"type":"number"}},"required":["w"]}]}`,
+	} {
+		text := `{"$id":"https://example.com/opt","type":"object","properties":{"plain":{"$ref":"#/$defs/Figure"},"tagged":{"allOf":[{"$ref":"#/$defs/Figure"},{"type":"object","properties":{"tag":{"type":"string"}}}]},"again":{"allOf":[{"type":"object","properties":{"n":{"type":"integer"}}},{"$ref":"#/$defs/Figure"}]}},` +
+			`"$defs":{"Circle":{"type":"object","properties":{"r":{"type":"number"}},"required":["r"]},"Figure":{"type":"object","properties":{"name":{"type":"string"},"shape":{` + inner + `}}}}}`
+		root, err := sg.FromJSON([]byte(text))
+		if err != nil {
+			continue
+		}
+		j := &job{root: root}
+		for _, base := range [][]string{nil, {"--extra-imports"}, {"--struct-name-from-title", "--min-sized-ints"}} {
+			j.pairs = append(j.pairs, optPair{kind: "only-models", a: base, b: append(append([]string{}, base...), "--only-models")})
+		}
+		jobs = append(jobs, j)
+	}
 	type pres struct {
 		problem string
 		skipped string
